@@ -188,7 +188,12 @@ ANY_POOL = [2.0, 3.0, 0.5, 5.0, 1.5]
 ROOT_POOL = [1.0, 2.0, 0.5, 4.0, 3.0, 0.25, 5.0, 1.5]
 
 
+NARROW = [False]          # large-dimension cells draw variances from a narrow pool (conditioning of a 76-dim posterior)
+
+
 def gen_var(rng, form):
+    if NARROW[0]:
+        return rng.choice([1.0, 2.0, 0.5]) if form in ("sqrtcov", "sqrtprec") else rng.choice([1.0, 4.0, 0.25, 2.0])
     if form in ("sqrtcov", "sqrtprec"):
         return rng.choice(ROOT_POOL)
     return rng.choice(SQ_POOL) if rng.random() < 0.7 else rng.choice(ANY_POOL)
@@ -197,9 +202,9 @@ def gen_var(rng, form):
 def gen_upper(rng, dim):
     U = [[Fraction(0)] * dim for _ in range(dim)]
     for i in range(dim):
-        U[i][i] = Fraction(rng.choice([1, 1, 2, Fraction(1, 2)]))
+        U[i][i] = Fraction(rng.choice([1, 1, 2]) if NARROW[0] else rng.choice([1, 1, 2, Fraction(1, 2)]))
         for j in range(i + 1, dim):
-            U[i][j] = Fraction(rng.randint(-2, 2))
+            U[i][j] = Fraction(rng.choice([-1, 0, 0, 1]) if NARROW[0] else rng.randint(-2, 2))
     return U
 
 
@@ -225,7 +230,7 @@ def gen_gspec(rng, dim, form, shape):
         aux = [[0.0] * dim for _ in range(dim)]
         o, has_aux = 0, False
         while o < dim:
-            bs = min(rng.randint(2, 4), dim - o)
+            bs = min(rng.randint(2, 3), dim - o)
             gb = gen_gspec(rng, bs, form, "full")
             for i in range(bs):
                 for j in range(bs):
@@ -868,10 +873,23 @@ def lattice_big(ctx):
 
 def gen_big_spec(cuqi, rng, cell):
     idx, iface, role, form, shape = cell
-    for attempt in range(20):
+    for attempt in range(40):
+        NARROW[0] = True
+        try:
+            spec = _gen_big_once(rng, idx, iface, role, form, shape)
+        finally:
+            NARROW[0] = False
+        H, r = user_posterior(spec, {})
+        if np.linalg.cond(np.array([[float(v) for v in row] for row in H])) <= 2e4:
+            return spec
+    raise RuntimeError("could not generate a well-conditioned large configuration %r" % (cell,))
+
+
+def _gen_big_once(rng, idx, iface, role, form, shape):
+    if True:
         if role == "prior":
             n, m = BIG, 3
-            A = [[float(rng.choice([0, 0, 0, 1, -1, 2])) for _ in range(n)] for _ in range(m)]
+            A = [[float(rng.choice([0, 0, 0, 0, 0, 1, -1])) for _ in range(n)] for _ in range(m)]
             noise = gen_gspec(rng, m, *NOISE_CELLS[idx % 16])
             prior = {"kind": "gaussian", "g": gen_gspec(rng, n, form, shape), "mean": [rng.randint(-4, 4) / 2] if idx % 2 else rand_dyadic_vec(rng, n),
                      "scalar_mean": bool(idx % 2)}
@@ -884,10 +902,7 @@ def gen_big_spec(cuqi, rng, cell):
                 "liks": [{"A": A, "b": [float(rng.randint(-5, 5)) for _ in range(m)], "noise": noise}], "prior": prior,
                 "xcurs": [[0.0] * n], "shape": "big", "idx": idx}
         spec["cell"] = "rto-dim76/%s/%s=%s-%s" % (iface, role, form, shape)
-        H, r = user_posterior(spec, {})
-        if np.linalg.cond(np.array([[float(v) for v in row] for row in H])) <= 2e3:
-            return spec
-    raise RuntimeError("could not generate a well-conditioned large configuration %r" % (cell,))
+        return spec
 
 
 UGLA_LOCS = ["zero", "scalar", "vector", "const-vector"]
